@@ -1,6 +1,6 @@
 (* C17 — property theorems only: each restates the full statement and is closed by the lemma proved in Proofs/. *)
 From Coq Require Import ZArith List Bool.
-From NPS Require Import ListAux PySlice NumpySem Scatter BuildIdx XorBroadcast View Index Assign Reduce Scan RaOps Heap Hash HashRun BitArr RLE RLEOps RLE2d DataClass RowsSpec AssignSpec MapSpec Denote RLEMisc BinaryProof RL2Proof RL2Col RL2Ravel RL2Elem RL2Argmax MatrixDecode ColProof RL2ColSum RL2ColCounts RL2Intervals RL2Range.
+From NPS Require Import ListAux PySlice NumpySem Scatter BuildIdx XorBroadcast View Index Assign Reduce Scan RaOps Heap Hash HashRun BitArr RLE RLEOps RLE2d DataClass RowsSpec AssignSpec MapSpec Denote RLEMisc BinaryProof RL2Proof RL2Col RL2Ravel RL2Elem RL2Argmax MatrixDecode ColProof RL2ColSum RL2ColCounts RL2Intervals RL2Range RL2RangeStep.
 Import ListNotations.
 Open Scope Z_scope.
 
@@ -137,6 +137,22 @@ Theorem C17_rl2_col_range_pos1_partial :
          rl2_decode y = map (fun d : list Z => ztake (b - a) (zdrop a d)) (rl2_decode (of_runs rows)).
 Proof. exact rl2_col_range_pos1_partial. Qed.
 Print Assumptions C17_rl2_col_range_pos1_partial.
+
+Theorem C17_rl2_col_range_pos_partial :
+  forall (rows : list (list Z * list Z)) (a b k : Z),
+       0 <= a < b ->
+       1 <= k ->
+       Forall (fun p : list Z * list Z => canon Z (fst p) (snd p) /\ b <= zsum (fst p)) rows ->
+       exists y : rl2,
+         rl2_col_range (of_runs rows) {| sl_start := Some a; sl_stop := Some b; sl_step := Some k |} = Ok y /\
+         rl2_decode y =
+         map
+           (fun d : list Z =>
+            let w := ztake (b - a) (zdrop a d) in
+            map (fun q : Z => nth (Z.to_nat (q * k)) w 0) (ap 0 (StepProof.cdiv k (b - a)) 1))
+           (rl2_decode (of_runs rows)).
+Proof. exact rl2_col_range_pos_partial. Qed.
+Print Assumptions C17_rl2_col_range_pos_partial.
 
 Theorem C17_col_range_row_is_start_to_end :
   forall (ev vs : list Z) (a b : Z),
